@@ -350,7 +350,7 @@ func Run(cfg hx.Config) error {
 		}
 	}
 
-	nscen := cfg.N(300, 12000)
+	nscen := cfg.N(300, 7500)
 	for i := 0; i < nscen && !r.Stop(); i++ {
 		maxTasks := 2 + rnd.Intn(9)
 		if i%40 == 7 {
